@@ -48,6 +48,7 @@ func runC15(p *Prog, r *Report) {
 	r.MinInstances["C15.R5"] = 5
 	r.MinInstances["C15.R6"] = 1
 	r.MinInstances["C15.R7"] = 4
+	r.MinInstances["C15.R8"] = 1
 	var fns []*ssa.Function
 	for _, fn := range p.LibFuncs() {
 		if inPackets(fn) {
@@ -64,6 +65,8 @@ func runC15(p *Prog, r *Report) {
 	c15R5(p, r)
 	c15R6(p, r, fns)
 	c15R7(p, r)
+	c15R8(p, r, fns)
+	c15R9(p, r, fns)
 }
 
 // ---- R1 -----------------------------------------------------------------------------------
@@ -418,8 +421,38 @@ func c15Weaker(p *Prog, g *GuardCtx, fn *ssa.Function, s Sink, goal Goal) (strin
 		if frames != nil && g.Prove(g.PC.Of(frames).Sub(g.PC.Of(s.V)).Sub(polyConst(1)), s.Instr) {
 			return "weaker clause decided: index < Frames() of the same packet (the relation Frames() <= len(Data) is established by the decoder/constructor and not decided here)", true
 		}
-	case fn.Name() == "ReadPacketPlusPad" && s.Kind == SinkDivisor:
-		if prm, ok := s.V.(*ssa.Parameter); ok && prm.Name() == "stride" {
+	case s.Kind == SinkDivisor:
+		// the stride handed to the packet reader by its caller, used directly or passed on
+		// unchanged to a helper of the reader
+		var isStride func(v ssa.Value, depth int) bool
+		isStride = func(v ssa.Value, depth int) bool {
+			prm, ok := stripConv(v).(*ssa.Parameter)
+			if !ok || depth > 2 {
+				return false
+			}
+			f := prm.Parent()
+			if f.Name() == "ReadPacketPlusPad" && prm.Name() == "stride" {
+				return true
+			}
+			sites, complete := p.staticCallSites(f)
+			if !complete || len(sites) == 0 {
+				return false
+			}
+			for k, pp := range f.Params {
+				if pp != prm {
+					continue
+				}
+				for _, site := range sites {
+					cc := CallOf(site)
+					if cc == nil || k >= len(cc.Args) || !isStride(cc.Args[k], depth+1) {
+						return false
+					}
+				}
+				return true
+			}
+			return false
+		}
+		if isStride(s.V, 0) {
 			return "API precondition, not packet content: the caller's stride (ring-buffer packet size) must be non-zero", true
 		}
 	}
@@ -772,35 +805,66 @@ func c15R5(p *Prog, r *Report) {
 			r.OK("C15.R5", key, p.InstrPos(in), "the fixed 16-byte header")
 			return
 		}
-		mk, ok := buf.(*ssa.MakeSlice)
-		if !ok {
-			r.Bad("C15.R5", key, p.InstrPos(in), "the buffer read into is not a slice made in the decoder with a header-derived size")
-			return
-		}
-		// size expression, structurally: headerLength - 16, payloadLength, payloadLength / elem
-		fieldLoad := func(v ssa.Value) string {
-			v = stripConv(v)
-			if _, f, _, ok := FieldOf(v); ok {
-				return f
+		// the buffer kept in a field of the packet (p.Data made in one of several sizes, then one
+		// read into whichever was made): every slice stored there that can reach the read is checked
+		var bufs []ssa.Value
+		var keys []string
+		if ld, isLd := buf.(*ssa.UnOp); isLd && ld.Op == token.MUL {
+			if o, f, _, okf := FieldOf(ld); okf {
+				for _, st := range StoresTo(in.Parent(), o, f) {
+					if !InstrReaches(st, in) {
+						continue
+					}
+					v := st.Val
+					if mi, isMI := v.(*ssa.MakeInterface); isMI {
+						v = mi.X
+					}
+					bufs = append(bufs, v)
+					keys = append(keys, fmt.Sprintf("%s (buffer %s made at %s)", key, v.Type().String(), p.InstrPos(st)))
+				}
 			}
-			return ""
 		}
-		sz := stripConv(mk.Len)
-		okSize, desc := false, types.ExprString(nil)
-		desc = sz.String()
-		if bo, ok := sz.(*ssa.BinOp); ok {
-			k, isC := constInt(bo.Y)
-			switch {
-			case bo.Op == token.SUB && fieldLoad(bo.X) == "headerLength" && isC && k == 16:
-				okSize, desc = true, "headerLength - 16"
-			case bo.Op == token.QUO && fieldLoad(bo.X) == "payloadLength" && isC && k == elem:
-				okSize, desc = true, fmt.Sprintf("payloadLength / %d elements of %d bytes", k, elem)
+		if len(bufs) == 0 {
+			bufs, keys = []ssa.Value{buf}, []string{key}
+		}
+		for bi, buf := range bufs {
+			key := keys[bi]
+			elem := elem
+			if len(bufs) > 1 || bufs[0] != buf {
+				if sl, ok := buf.Type().Underlying().(*types.Slice); ok {
+					elem = types.SizesFor("gc", "amd64").Sizeof(sl.Elem())
+				}
 			}
-		} else if fieldLoad(sz) == "payloadLength" && elem == 1 {
-			okSize, desc = true, "payloadLength"
+			mk, ok := buf.(*ssa.MakeSlice)
+			if !ok {
+				r.Bad("C15.R5", key, p.InstrPos(in), "the buffer read into is not a slice made in the decoder with a header-derived size")
+				continue
+			}
+			// size expression, structurally: headerLength - 16, payloadLength, payloadLength / elem
+			fieldLoad := func(v ssa.Value) string {
+				v = stripConv(v)
+				if _, f, _, ok := FieldOf(v); ok {
+					return f
+				}
+				return ""
+			}
+			sz := stripConv(mk.Len)
+			okSize, desc := false, types.ExprString(nil)
+			desc = sz.String()
+			if bo, ok := sz.(*ssa.BinOp); ok {
+				k, isC := constInt(bo.Y)
+				switch {
+				case bo.Op == token.SUB && fieldLoad(bo.X) == "headerLength" && isC && k == 16:
+					okSize, desc = true, "headerLength - 16"
+				case bo.Op == token.QUO && fieldLoad(bo.X) == "payloadLength" && isC && k == elem:
+					okSize, desc = true, fmt.Sprintf("payloadLength / %d elements of %d bytes", k, elem)
+				}
+			} else if fieldLoad(sz) == "payloadLength" && elem == 1 {
+				okSize, desc = true, "payloadLength"
+			}
+			_ = pc
+			r.Check(okSize, "C15.R5", key, p.InstrPos(in), "buffer of "+desc, "the read buffer size ("+desc+", element size "+fmt.Sprint(elem)+") is not one of 16, headerLength-16, <= payloadLength")
 		}
-		_ = pc
-		r.Check(okSize, "C15.R5", key, p.InstrPos(in), "buffer of "+desc, "the read buffer size ("+desc+", element size "+fmt.Sprint(elem)+") is not one of 16, headerLength-16, <= payloadLength")
 	})
 }
 
@@ -857,3 +921,219 @@ func c15R6(p *Prog, r *Report, fns []*ssa.Function) {
 		}
 	}
 }
+
+// ---- R8: the bytes skipped after a packet are the padding to the stride, and nothing else -------
+
+// c15R8: where the decoder discards bytes after a packet (io.CopyN to io.Discard), the amount is
+// the padding that fills the packet's last stride: `stride - length%stride` only on a way where
+// `length%stride` was tested non-zero, otherwise nothing.  An unguarded `stride - length%stride`
+// discards a whole extra stride whenever the length is a multiple of the stride, i.e. decoding
+// consumes more than the header declares and swallows the next packet.
+func c15R8(p *Prog, r *Report, fns []*ssa.Function) {
+	for _, fn := range fns {
+		Instrs(fn, func(in ssa.Instruction) {
+			call, ok := in.(*ssa.Call)
+			if !ok || CalleeName(&call.Call) != "io.CopyN" || len(call.Call.Args) != 3 {
+				return
+			}
+			// destination io.Discard
+			isDiscard := false
+			if ld, ok := call.Call.Args[0].(*ssa.UnOp); ok {
+				if g, ok := ld.X.(*ssa.Global); ok && g.Name() == "Discard" {
+					isDiscard = true
+				}
+			}
+			if !isDiscard {
+				return
+			}
+			r.Fn(FuncName(fn))
+			// the alternatives the amount can be, each with the tests it is taken under
+			type alt struct {
+				v     ssa.Value
+				under []ctrl
+			}
+			var alts []alt
+			var expand func(v ssa.Value, under []ctrl, depth int)
+			expand = func(v ssa.Value, under []ctrl, depth int) {
+				v = stripConv(v)
+				if depth > 4 {
+					alts = append(alts, alt{v, under})
+					return
+				}
+				switch x := v.(type) {
+				case *ssa.Phi:
+					for i, e := range x.Edges {
+						pred := x.Block().Preds[i]
+						u := append(append([]ctrl{}, under...), controllingIfs(pred)...)
+						u = append(u, ctrlOfEdge(pred, x.Block())...)
+						expand(e, u, depth+1)
+					}
+				case *ssa.Call:
+					if g := x.Call.StaticCallee(); g != nil && isModuleFn(g) && g.Blocks != nil && !x.Call.IsInvoke() {
+						Instrs(g, func(y ssa.Instruction) {
+							if ret, ok := y.(*ssa.Return); ok && len(ret.Results) == 1 {
+								u := append(append([]ctrl{}, under...), controllingIfs(ret.Block())...)
+								expand(ret.Results[0], u, depth+1)
+							}
+						})
+						return
+					}
+					alts = append(alts, alt{v, under})
+				default:
+					alts = append(alts, alt{v, under})
+				}
+			}
+			expand(call.Call.Args[2], controllingIfs(call.Block()), 0)
+			bad, unk := "", ""
+			for _, a := range alts {
+				if k, isC := constInt(a.v); isC {
+					if k != 0 {
+						unk = fmt.Sprintf("a constant %d is skipped", k)
+					}
+					continue
+				}
+				sub, ok := a.v.(*ssa.BinOp)
+				if !ok || sub.Op != token.SUB {
+					unk = "the amount skipped is not of the form stride - length%stride"
+					continue
+				}
+				rem, ok := stripConv(sub.Y).(*ssa.BinOp)
+				if !ok || rem.Op != token.REM || stripConv(rem.Y) != stripConv(sub.X) {
+					unk = "the amount skipped is not of the form stride - length%stride"
+					continue
+				}
+				guarded := false
+				for _, ct := range a.under {
+					if lx, ly, side, ok := strictLess(ct.If.Cond); ok && side == ct.Branch {
+						if z, isC := constInt(lx); isC && z == 0 && stripConv(ly) == ssa.Value(rem) {
+							guarded = true
+						}
+					}
+					if bo, ok := ct.If.Cond.(*ssa.BinOp); ok && (bo.Op == token.NEQ || bo.Op == token.EQL) {
+						for _, pr := range [][2]ssa.Value{{bo.X, bo.Y}, {bo.Y, bo.X}} {
+							if z, isC := constInt(pr[1]); isC && z == 0 && stripConv(pr[0]) == ssa.Value(rem) {
+								if (bo.Op == token.NEQ && ct.Branch == 0) || (bo.Op == token.EQL && ct.Branch == 1) {
+									guarded = true
+								}
+							}
+						}
+					}
+				}
+				if !guarded {
+					bad = fmt.Sprintf("`%s` (computed at %s) is skipped without a test that the remainder is not zero", c05Describe(a.v, nil, 0), p.InstrPos(sub))
+				}
+			}
+			key := "bytes skipped after a packet in " + FuncName(fn) + " are only the padding to the stride"
+			switch {
+			case bad != "":
+				r.Bad("C15.R8", key, p.InstrPos(call), bad+": when the packet length is a whole number of strides a full extra stride is discarded, so the decoder consumes more bytes than the header declares and swallows the next packet")
+			case unk != "":
+				r.Unk("C15.R8", key, p.InstrPos(call), unk+": not decided")
+			default:
+				r.OK("C15.R8", key, p.InstrPos(call), fmt.Sprintf("%d alternative(s): stride - remainder under remainder > 0, else nothing", len(alts)))
+			}
+		})
+	}
+}
+
+// ---- R9: the byte order handed to encoding/binary is not a nil interface -----------------------
+
+// c15R9: binary.Read / binary.Write call methods of their ByteOrder argument for every data type
+// except plain bytes; a nil interface there is a nil dereference inside the library (a panic of
+// the decoder).  For each such call in the package whose data argument is not statically a byte
+// slice, the order argument is a concrete value, or a merge of values each of which is concrete
+// or arrives on the non-nil side of a nil test of itself.
+func c15R9(p *Prog, r *Report, fns []*ssa.Function) {
+	n := 0
+	for _, fn := range fns {
+		Instrs(fn, func(in ssa.Instruction) {
+			// the decoding side only (the property is about decoding arbitrary bytes)
+			if !IsCallTo(in, "encoding/binary.Read") {
+				return
+			}
+			cc := CallOf(in)
+			if len(cc.Args) != 3 {
+				return
+			}
+			data := cc.Args[2]
+			if mi, ok := data.(*ssa.MakeInterface); ok {
+				if sl, ok := mi.X.Type().Underlying().(*types.Slice); ok {
+					if b, ok := sl.Elem().Underlying().(*types.Basic); ok && (b.Kind() == types.Uint8 || b.Kind() == types.Int8) {
+						return // bytes: the order is not used
+					}
+				}
+			}
+			n++
+			r.Fn(FuncName(fn))
+			var nonNil func(v ssa.Value, at *ssa.BasicBlock, d int) bool
+			nonNil = func(v ssa.Value, at *ssa.BasicBlock, d int) bool {
+				if d > 5 {
+					return false
+				}
+				switch x := v.(type) {
+				case *ssa.MakeInterface:
+					return true
+				case *ssa.ChangeInterface:
+					return nonNil(x.X, at, d+1)
+				case *ssa.Phi:
+					for i, e := range x.Edges {
+						if !nonNil(e, x.Block().Preds[i], d+1) {
+							return false
+						}
+					}
+					return len(x.Edges) > 0
+				case *ssa.UnOp:
+					if x.Op == token.MUL {
+						if g, ok := x.X.(*ssa.Global); ok && fnPkgPathOfGlobal(g) == "encoding/binary" {
+							return true
+						}
+						// the same field tested non-nil on the way here
+						for _, blk := range []*ssa.BasicBlock{at, x.Block()} {
+							if blk == nil {
+								continue
+							}
+							for _, ct := range append(controllingIfs(blk), ctrlSelf(blk)...) {
+								bo, ok := ct.If.Cond.(*ssa.BinOp)
+								if !ok || (bo.Op != token.NEQ && bo.Op != token.EQL) {
+									continue
+								}
+								var other ssa.Value
+								if c, ok := bo.Y.(*ssa.Const); ok && c.Value == nil {
+									other = bo.X
+								} else if c, ok := bo.X.(*ssa.Const); ok && c.Value == nil {
+									other = bo.Y
+								}
+								ld, ok := other.(*ssa.UnOp)
+								if !ok {
+									continue
+								}
+								pcx := NewPolyCtx(fn)
+								p1, ok1 := pcx.accessPath(ld.X)
+								p2, ok2 := pcx.accessPath(x.X)
+								if ok1 && ok2 && p1 == p2 {
+									if (bo.Op == token.NEQ && ct.Branch == 0) || (bo.Op == token.EQL && ct.Branch == 1) {
+										return true
+									}
+								}
+							}
+						}
+					}
+				}
+				return false
+			}
+			key := fmt.Sprintf("byte order of the binary call in %s #%d is not nil", FuncName(fn), n)
+			r.Check(nonNil(cc.Args[1], in.Block(), 0), "C15.R9", key, p.InstrPos(in), "a concrete byte order, or tested non-nil on the way",
+				"the byte order handed to encoding/binary can be a nil interface here (it is set only when the format string names one) while the data is not plain bytes: the library calls a method of it and the decoder panics on such a packet")
+		})
+	}
+}
+
+func fnPkgPathOfGlobal(g *ssa.Global) string {
+	if g.Pkg == nil || g.Pkg.Pkg == nil {
+		return ""
+	}
+	return g.Pkg.Pkg.Path()
+}
+
+// ctrlSelf: no extra controls (placeholder for symmetry with controllingIfs).
+func ctrlSelf(b *ssa.BasicBlock) []ctrl { return nil }
